@@ -25,6 +25,9 @@ type FakeDI struct {
 	seq       int
 	maxPend   int
 	disposeCb []func()
+	// preload: values the instance already carries; replayed to every handler
+	// that attaches (synchronously inside AddReference, like controllerbus does).
+	preload []directive.AttachedValue
 
 	// Log of reference events in the order the fake saw them.
 	log []string
@@ -151,8 +154,27 @@ func (d *FakeDI) AddReference(cb directive.ReferenceHandler, weak bool) directiv
 	} else {
 		d.log = append(d.log, "acquired#"+itoa(r.Seq))
 	}
+	var replay []directive.AttachedValue
+	if cb != nil && len(d.preload) != 0 {
+		replay = append(replay, d.preload...)
+		d.log = append(d.log, "replay-"+itoa(len(replay))+"-values#"+itoa(r.Seq))
+	}
 	d.mu.Unlock()
+	// controllerbus (directiveInstance.addReferenceLocked) delivers a
+	// HandleValueAdded for every value the instance already carries before
+	// AddReference returns, with its mutex released.
+	for _, v := range replay {
+		cb.HandleValueAdded(d, v)
+	}
 	return r
+}
+
+// SetPreload sets the values the instance already carries: they are replayed
+// to every handler passed to AddReference from then on.
+func (d *FakeDI) SetPreload(vals ...directive.AttachedValue) {
+	d.mu.Lock()
+	d.preload = append([]directive.AttachedValue(nil), vals...)
+	d.mu.Unlock()
 }
 
 // Refs returns all references handed out so far.
